@@ -97,7 +97,7 @@ def wkey(p: Program, rule: str, ev, extra: str = "") -> str:
     fn, stmt = p.stmt_at(ev[-1])
     via = ev[8] if len(ev) > 9 else ""
     frames = [f for f in via.split(">") if f and "Method." not in f]
-    return f"{rule}|{'+'.join(ev[3])}|{fn}|{stmt}|via:{'>'.join(frames[-6:])}{extra}"
+    return f"{rule}|{'+'.join(ev[3])}|{fn}|{stmt}|via:{'>'.join(frames[-12:])}{extra}"
 
 
 def walk_own(fnode):
@@ -211,3 +211,33 @@ def class_valued(fi):
             if ".mro()" in it or "__mro__" in it or "__bases__" in it:
                 out.add(n.target.id)
     return out
+
+
+def callers_map(ctx):
+    """short name of callee -> [short names of its static callers] (cached on the context)."""
+    cm = getattr(ctx, "_callers_map", None)
+    if cm is None:
+        cm = {}
+        for f_ in ctx.p.iter_functions():
+            if f_.is_lambda:
+                continue
+            for _node, g_ in static_callees(ctx.p, f_):
+                cm.setdefault(short_name(g_), []).append(short_name(f_))
+        ctx._callers_map = cm
+    return cm
+
+
+def short_name(fi):
+    return fi.qualname.split(":")[-1].split("#")[0]
+
+
+def site_allowed(ctx, short: str, allowed, depth: int = 2) -> bool:
+    """`short` is an enumerated site (allowed(short) is true), or a private helper (leading underscore, not a dunder)
+    extracted from enumerated sites: every static caller is itself allowed (transitively, to `depth`)."""
+    if allowed(short):
+        return True
+    last = short.split(".")[-1]
+    if depth <= 0 or not last.startswith("_") or last.startswith("__"):
+        return False
+    cs = callers_map(ctx).get(short, [])
+    return bool(cs) and all(site_allowed(ctx, c_, allowed, depth - 1) for c_ in cs)
